@@ -37,6 +37,7 @@ type EntrySpec struct {
 	Race       bool                `json:"native_race"`
 	Note       string              `json:"note"`
 	NoCross    bool                `json:"no_cross"`
+	BudgetViolation bool           `json:"budget_is_violation"`
 }
 
 type CheckSpec struct {
@@ -155,6 +156,7 @@ func cmdCheck(args []string) {
 	}
 	loadS := time.Since(t0).Seconds()
 	P := interp.NewProgram(l.Prog, repoPath)
+	P.RepoDir = *repo
 
 	var outcomes []entryOutcome
 	for _, es := range spec.Entries {
@@ -174,10 +176,15 @@ func cmdCheck(args []string) {
 			fatal(2, "CHECK-ERROR property=%s: harness entry %s not found", prop, es.Entry)
 		}
 		opt := interp.Options{Workers: *workers, MaxPaths: ts.MaxPaths, MaxSteps: ts.MaxSteps, MaxDecisions: ts.MaxDecisions,
-			SolverKind: *solver, CountFiles: es.CountFiles, CountCalls: es.CountCalls, Params: ts.Params, Seed: seed}
-		if ts.TimeoutS > 0 {
-			opt.Deadline = time.Now().Add(time.Duration(ts.TimeoutS) * time.Second)
+			SolverKind: *solver, CountFiles: es.CountFiles, CountCalls: es.CountCalls, Params: ts.Params, Seed: seed, BudgetIsViolation: es.BudgetViolation}
+		if ts.TimeoutS == 0 {
+			// never hang: an exploration that does not finish is reported as incomplete (exit 2)
+			ts.TimeoutS = 900
+			if *tier == "thorough" {
+				ts.TimeoutS = 10800
+			}
 		}
+		opt.Deadline = time.Now().Add(time.Duration(ts.TimeoutS) * time.Second)
 		e0 := time.Now()
 		sum := interp.Explore(P, fn, opt)
 		outcomes = append(outcomes, entryOutcome{spec: es, sum: sum, params: ts.Params, wall: time.Since(e0).Seconds()})
@@ -220,6 +227,9 @@ func cmdCheck(args []string) {
 			if pp.Status == interp.PathDeadlock {
 				kind = "deadlock"
 			}
+			if pp.Status == interp.PathBudget {
+				kind = "budget"
+			}
 			rep := ReplayFile{Property: prop, Entry: o.spec.Entry, Pkg: o.spec.Pkg, Label: kind + " reached the harness entry: " + pp.Detail, Known: pp.Known,
 				Params: o.params, Values: pp.Model, Repeat: o.spec.Repeat, Kind: kind, Detail: pp.Detail}
 			vios = append(vios, vio{o, interp.FoundViolation{Label: rep.Label, Known: pp.Known, Model: pp.Model, Inputs: pp.Inputs}, rep})
@@ -260,7 +270,11 @@ func cmdCheck(args []string) {
 			exit = 2
 			continue
 		}
-		b := byPkg[v.rep.Pkg]
+		bkey := v.rep.Pkg
+		if v.rep.Race {
+			bkey += "|race"
+		}
+		b := byPkg[bkey]
 		if b == nil {
 			b, err = buildNative(*repo, *harness, v.rep.Pkg, v.rep.Race)
 			if err != nil {
@@ -268,7 +282,7 @@ func cmdCheck(args []string) {
 				exit = 2
 				continue
 			}
-			byPkg[v.rep.Pkg] = b
+			byPkg[bkey] = b
 		}
 		res := b.run(path, v.rep)
 		switch {
@@ -503,6 +517,9 @@ func (b *nativeBuild) run(replayPath string, rep ReplayFile) nativeResult {
 	cmd.Env = append(os.Environ(), "ZZ_REPLAY="+replayPath, "ZZ_ENTRY="+rep.Entry, "ZZ_REPEAT="+strconv.Itoa(rp))
 	out, _ := cmd.CombinedOutput()
 	txt := string(out)
+	if rep.Race && strings.Contains(txt, "DATA RACE") {
+		return nativeResult{true, "race detector: DATA RACE reported"}
+	}
 	res := ""
 	for _, line := range strings.Split(txt, "\n") {
 		if strings.HasPrefix(line, "ZZ-RESULT: ") {
@@ -515,7 +532,7 @@ func (b *nativeBuild) run(replayPath string, rep ReplayFile) nativeResult {
 		if len(short) > 600 {
 			short = short[:600]
 		}
-		if rep.Kind == "panic" || rep.Kind == "deadlock" || strings.Contains(txt, "DATA RACE") {
+		if rep.Kind == "panic" || rep.Kind == "deadlock" || rep.Kind == "budget" || strings.Contains(txt, "DATA RACE") {
 			return nativeResult{true, "process died: " + short}
 		}
 		return nativeResult{strings.Contains(txt, "panic:") || strings.Contains(txt, "fatal error"), "process died: " + short}
